@@ -88,16 +88,17 @@ def rule_a(ctx: Context, R: Reporter, fit: FuncInfo):
                 # the guarded branch assigns the fallback parameter
                 fb_ok = False
                 for g in guards:
-                    for st in g.stmt.body:
-                        if isinstance(st, ast.Assign) and isinstance(st.targets[0], ast.Name) and st.targets[0].id == dof and isinstance(st.value, ast.Name) and st.value.id in m.params:
-                            fb_ok = True
-                            fb_param = st.value.id
-                            # polarity: branch taken when NOT finite
-                            t = g.ast
-                            neg = isinstance(t, ast.UnaryOp) and isinstance(t.op, (ast.Invert, ast.Not))
-                            inner = t.operand if neg else t
-                            is_fin = isinstance(inner, ast.Call) and (ctx.res.external_name(m, inner) or "").endswith("isfinite")
-                            fb_ok = (neg and is_fin) or ((not neg) and not is_fin)
+                    for (branch, taken_when) in ((g.stmt.body, True), (getattr(g.stmt, "orelse", []) or [], False)):
+                        for st in branch:
+                            if isinstance(st, ast.Assign) and isinstance(st.targets[0], ast.Name) and st.targets[0].id == dof and isinstance(st.value, ast.Name) and st.value.id in m.params:
+                                fb_param = st.value.id
+                                # polarity: branch taken when NOT finite
+                                t = g.ast
+                                neg = isinstance(t, ast.UnaryOp) and isinstance(t.op, (ast.Invert, ast.Not))
+                                inner = t.operand if neg else t
+                                is_fin = isinstance(inner, ast.Call) and (ctx.res.external_name(m, inner) or "").endswith("isfinite")
+                                test_true_means_nonfinite = (neg and is_fin) or ((not neg) and not is_fin)
+                                fb_ok = test_true_means_nonfinite == taken_when
                 R.check("C19.a", f"{m.short}: a non-finite dof is replaced by the caller's fallback parameter", fb_ok, m, guards[0].stmt if guards else nd.stmt,
                         msg=f"{m.short}: the non-finite branch does not assign the fallback parameter to `{dof}` (or has the wrong polarity)", key=f"dof-fallback-assign:{m.name}")
     R.floor("C19.a", "fit call sites in the factories", n_sites, 1)
